@@ -402,8 +402,6 @@ Proof.
   - rewrite IH by lia. f_equal. f_equal. lia.
 Qed.
 
-Definition rr_owner_nat (W : nat) (B : Z) (n : nat) : nat := Z.to_nat (rr_owner (Z.of_nat W) B (Z.of_nat n)).
-
 Definition pool_inv (W : nat) (B : Z) (i : init_t) (inner : tree) (n : nat) (pool : list wstate) : Prop :=
   length pool = W /\
   forall r, (r < W)%nat -> exists t,
